@@ -45,10 +45,10 @@ contract('matcher.BaseMatcher.addValue',
          modifies=['self._values'],
          ensures=[Clause('%s is not None' % TARGET, carries='C01', label='key-declared-or-wildcard'),
                   Clause('self._values == updated(old(self._values), %s, self._values[%s])' % (T_ATTR, T_ATTR),
-                         carries='C01,C02', label='only-the-receiving-attribute-changes'),
+                         carries='C01,C02,C15', label='only-the-receiving-attribute-changes'),
                   Clause('slot_after_add(old(self._values)[%s], self._values[%s], val(%s)[0], val(%s)[1], '
                          'kt_val(self.type.keytype, key), value, position)' % (T_ATTR, T_ATTR, TARGET, TARGET),
-                         carries='C01,C02,C08', label='value-and-position-recorded-in-file-order')],
+                         carries='C01,C02,C08,C15', label='value-and-position-recorded-in-file-order')],
          raises=[Raise('ZConfig.DataConversionError', when='kt_raises(self.type.keytype, key)',
                        then=[Clause('exc.has_lineno and exc.lineno == position[0] and exc.url == position[2]',
                                     carries='C08', label='position'),
@@ -59,7 +59,7 @@ contract('matcher.BaseMatcher.addValue',
                             'kt_val(self.type.keytype, key))' % (TARGET, TARGET, TARGET, T_ATTR),
                        then=[Clause('self._values == old(self._values)', carries='C01', label='nothing-recorded'),
                              Clause('not exc.has_lineno and exc.url is None', label='no-position-yet')],
-                       carries='C01', label='unknown-or-repeated-key')],
+                       carries='C01,C15', label='unknown-or-repeated-key')],
          hints=['key_search(self.type, _i0, realkey, arbkey_info)'],
          loops=[Loop(invariant=[Clause('key_search(self.type, _i0, realkey, arbkey_info) == '
                                        'key_search(self.type, 0, realkey, None)', label='remaining-search-equals-search'),
